@@ -115,6 +115,8 @@ fn sig_without_param_attrs(sig: &syn::Signature) -> String {
             syn::FnArg::Typed(t) => t.attrs.clear(),
         }
     }
+    // a trailing comma after the last parameter is not part of the signature's meaning
+    s.inputs = s.inputs.into_iter().collect();
     toks(&s)
 }
 
